@@ -170,58 +170,99 @@ def _run_check_on(pid, sources):
     return new, rep
 
 
-def run(pid, prog, rep):
-    base_sources = prog.sources
-    seeds = sorted(glob.glob(os.path.join(VERIF, "seeded", "%s-*" % pid)))
-    fired, missed, skipped = [], [], []
-    for d in seeds:
+_JOB_SOURCES = {}
+
+
+def _job(args):
+    """worker: (kind, name, pid) -> (kind, name, outcome, details); sources are inherited through fork."""
+    kind, name, pid = args
+    os.environ["ODMLSA_NOEVIDENCE"] = "1"
+    try:
+        new, _ = _run_check_on(pid, _JOB_SOURCES[(kind, name)])
+    except AnalysisError as exc:
+        return (kind, name, "analysis-error", [str(exc)[:200]])
+    except Exception as exc:           # a crash of the checker on a variant is a defect of the checker
+        return (kind, name, "crash", [repr(exc)[:200]])
+    return (kind, name, "violation" if new else "silent", ["[%s] %s" % (i["rule"], i["instance"][:80]) for i in new[:3]])
+
+
+def variants(pid, base_sources):
+    """(seeds, twins, skipped): every seeded defect of this property and every behaviour preserving variant, as source maps."""
+    seeds, twins, skipped, inapplicable = {}, {}, [], []
+    for d in sorted(glob.glob(os.path.join(VERIF, "seeded", "%s-*" % pid))):
         pf = os.path.join(d, "patch.diff")
         if not os.path.exists(pf):
             continue
+        name = os.path.basename(d)
         with open(pf) as fobj:
             patched = apply_unified_diff(base_sources, fobj.read())
-        name = os.path.basename(d)
         if patched is None:
             skipped.append(name)
-            continue
-        try:
-            new, r2 = _run_check_on(pid, patched)
-        except AnalysisError as exc:
-            fired.append({"seed": name, "reported": "ANALYSIS-ERROR: %s" % exc})
-            continue
-        meta = {}
-        mp = os.path.join(d, "meta.json")
-        if os.path.exists(mp):
-            with open(mp) as fobj:
-                meta = json.load(fobj)
-        expected = meta.get("expected_detection", True)
-        if new:
-            fired.append({"seed": name, "reported": ["[%s] %s" % (i["rule"], i["instance"][:80]) for i in new[:3]]})
-        elif expected:
-            missed.append(name)
         else:
-            skipped.append(name + " (documented miss: %s)" % meta.get("why_missed", "value level"))
-    silent, alarms, inapplicable = [], [], []
+            seeds[name] = patched
     for desc, edit in TWINS:
-        if not callable(edit):
-            continue
         twin = edit(base_sources)
         if twin is None:
             inapplicable.append(desc)
-            continue
-        try:
-            new, r2 = _run_check_on(pid, twin)
-        except AnalysisError as exc:
-            alarms.append({"twin": desc, "reported": "ANALYSIS-ERROR: %s" % exc})
-            continue
-        if new:
-            alarms.append({"twin": desc, "reported": ["[%s] %s" % (i["rule"], i["instance"][:80]) for i in new[:3]]})
         else:
-            silent.append(desc)
+            twins[desc] = twin
+    for pf in sorted(glob.glob(os.path.join(VERIF, "twins", "*.diff"))):
+        name = "refactoring " + os.path.basename(pf)[:-5]
+        with open(pf) as fobj:
+            patched = apply_unified_diff(base_sources, fobj.read())
+        if patched is None:
+            inapplicable.append(name)
+        else:
+            twins[name] = patched
+    return seeds, twins, skipped, inapplicable
+
+
+def run(pid, prog, rep):
+    import multiprocessing
+    base_sources = prog.sources
+    seeds, twins, skipped, inapplicable = variants(pid, base_sources)
+    meta = {}
+    for name in seeds:
+        mp = os.path.join(VERIF, "seeded", name, "meta.json")
+        if os.path.exists(mp):
+            with open(mp) as fobj:
+                meta[name] = json.load(fobj)
+    _JOB_SOURCES.clear()
+    jobs = []
+    for name, src in seeds.items():
+        _JOB_SOURCES[("seed", name)] = src
+        jobs.append(("seed", name, pid))
+    for name, src in twins.items():
+        _JOB_SOURCES[("twin", name)] = src
+        jobs.append(("twin", name, pid))
+    n_proc = max(1, min(int(os.environ.get("ODMLSA_JOBS", "16")), len(jobs)))
+    if n_proc > 1:
+        ctx = multiprocessing.get_context("fork")
+        with ctx.Pool(n_proc) as pool:
+            results = pool.map(_job, jobs, chunksize=1)
+    else:
+        results = [_job(j) for j in jobs]
+    fired, missed, silent, alarms = [], [], [], []
+    for kind, name, outcome, details in results:
+        if kind == "seed":
+            expected = meta.get(name, {}).get("expected_detection", True)
+            if outcome in ("violation", "analysis-error"):
+                fired.append({"seed": name, "reported": details if outcome == "violation" else "ANALYSIS-ERROR: %s" % details[0]})
+            elif outcome == "crash":
+                missed.append("%s (checker crashed: %s)" % (name, details[0]))
+            elif expected:
+                missed.append(name)
+            else:
+                skipped.append(name + " (documented miss: %s)" % meta.get(name, {}).get("why_missed", "value level"))
+        else:
+            if outcome == "silent":
+                silent.append(name)
+            else:
+                alarms.append({"twin": name, "reported": details if outcome == "violation" else "%s: %s" % (outcome.upper(), details[0])})
     rep.selftest = {"seeded_defects_fired": fired, "seeded_defects_missed": missed, "seeds_skipped": skipped,
                     "twins_silent": len(silent), "twin_false_alarms": alarms, "twins_inapplicable": inapplicable,
                     "rule": "seeded defects (sub-agent authored, confirmed against the real library) are applied in memory and must be "
-                            "reported; behaviour preserving twins must not be"}
+                            "reported; behaviour preserving twins (small edits and six whole-module refactorings by sub-agents) must not be"}
     rep.extra["evaluations"] = max(1, len(rep.items)) + len(fired) + len(missed) + len(silent) + len(alarms)
     print("selftest %s: %d seeded defects reported, %d missed, %d skipped; %d twins silent, %d false alarms"
           % (pid, len(fired), len(missed), len(skipped), len(silent), len(alarms)))
